@@ -319,6 +319,13 @@ theorem readUintLoop_sat (Pan : Prop) (w l : Nat) (rest : Bytes) :
     · simp [Sat, RdErr]
     · simp only [Sat, RdOk, List.length_drop]; omega
 
+theorem readNatLoop_sat (Pan : Prop) (l : Nat) (rest : Bytes) :
+    Sat Pan (readNatLoop l rest) (RdOk rest.length) (RdErr rest.length) := by
+  unfold readNatLoop
+  split
+  · exact readUintLoop_sat Pan 8 l rest
+  · simp [Sat, RdErr]
+
 theorem readWire_sat (Pan : Prop) (l : Nat) (rest : Bytes) :
     Sat Pan (readWire l rest) (RdOk rest.length) (RdErr rest.length) := by
   unfold readWire
@@ -398,10 +405,10 @@ theorem delegate_snd (l : Nat) (rest : Bytes) :
 mutual
 theorem readKind_good (M : Nat) : ∀ k, GoodRead M (readKind k)
   | .natural _ => fun l ic rest _ => by
-      simp only [readKind]; exact readUintLoop_sat _ 8 l rest
+      simp only [readKind]; exact readNatLoop_sat _ l rest
   | .time _ => fun l ic rest _ => by
       simp only [readKind]
-      refine sat_bind (readUintLoop_sat _ 8 l rest) (fun _ h => h) ?_
+      refine sat_bind (readNatLoop_sat _ l rest) (fun _ h => h) ?_
       intro p n hp
       obtain ⟨v, r⟩ := p
       simp only [RdOk] at hp
